@@ -1390,14 +1390,14 @@ def generate(rng, seed, tier='quick'):
                 # ... and right afterwards the same key locator is asked for with ANOTHER key
                 ops.append({'op': 'get_signer', 'shape': rng.choice(['key', 'key_obj']), 'id': rng.choice(ids),
                             'key': op['key'] + rng.randint(1, 3), 'cert': rng.randint(0, 9), 'key_locator': op['key_locator']})
-        elif x < 0.955:
+        elif x < 0.95:
             if rng.random() < 0.5:
                 ops.append({'op': 'probe_deleted_signer', 'key': rng.randint(0, 7)})
             elif rng.random() < 0.5:
                 ops.append({'op': 'hold', 'id': rng.choice(ids)})
             else:
                 ops.append({'op': 'use_held'})
-        elif x < 0.965:
+        elif x < 0.975:
             # a handle kept across the deletion of its owner and the creation of something else (which may inherit the row)
             a = rng.choice(ids)
             b = rng.choice([i for i in ids if i != a] or ids)
@@ -1411,7 +1411,7 @@ def generate(rng, seed, tier='quick'):
             nkeys += 1
             ncerts += 1
             ops.append({'op': 'use_held'})
-        elif x < 0.98:
+        elif x < 0.988:
             ops.append({'op': 'reopen'})
         else:
             ops.append({'op': 'crash'})
